@@ -17,7 +17,7 @@ MODELLED = ("the validation / mutation order of __iadd__, __isub__, __imul__, __
 OPAQUE_SAFE = ["add_scalar", "add_list", "mul_hist", "div_hist", "fill_str_weight", "fill_wrong_dim", "dtype_complex", "set_freq_wrong_shape", "set_freq_negative", "set_err_negative", "sub_scalar"]
 OPAQUE = ["add_scalar", "add_list", "mul_hist", "div_hist", "mul_list", "merge_zero", "merge_half", "merge_all_gap",
           "fill_str_weight", "fill_wrong_dim", "fill_n_wrong_weights", "fill_n_wrong_cols", "fill_n_strings", "dtype_complex",
-          "bad_axis_merge", "set_freq_wrong_shape", "set_freq_negative", "set_err_negative", "sub_scalar", "normalize_bad_axis", "derive_then_grow", "sub_more_unsigned"]
+          "bad_axis_merge", "set_freq_wrong_shape", "set_freq_negative", "set_err_negative", "sub_scalar", "normalize_bad_axis", "derive_then_grow", "sub_more_unsigned", "iadd_then_grow"]
 
 def gen(rng, n, tier):
     for i in range(n):
@@ -111,7 +111,13 @@ def _opaque(h, name):
     elif name == "fill_wrong_dim": h.fill([0.5] * (h.ndim + 1))
     elif name == "fill_n_wrong_weights":
         data = np.zeros((3, h.ndim)) if h.ndim > 1 else np.zeros(3)
-        h.fill_n(data + 0.25, weights=[1, 2])
+        if h.is_adaptive() and all(h.shape):      # values that would need new bins: a refusal must not leave the bins grown
+            far = [float(h.get_bin_right_edges(i)[-1]) + 4.25 * float(h.get_bin_widths(i)[-1]) for i in range(h.ndim)] if h.ndim > 1 \
+                else float(h.bin_right_edges[-1]) + 4.25 * float(h.bin_widths[-1])
+            data = data + 0.25 + (np.array(far) if h.ndim > 1 else far)
+            h.fill_n(data, weights=[1, 2])
+        else:
+            h.fill_n(data + 0.25, weights=[1, 2])
     elif name == "fill_n_wrong_cols": h.fill_n(np.zeros((2, h.ndim + 1)) + 0.25)
     elif name == "fill_n_strings": h.fill_n(["a", "b"] if h.ndim == 1 else [["a"] * h.ndim])
     elif name == "dtype_complex": h.dtype = np.complex128
@@ -133,6 +139,18 @@ def _opaque(h, name):
         h.fill(far)
         if not (_shapes_ok(p) and _shapes_ok(q) and _shapes_ok(t) and _shapes_ok(h)):
             raise AssertionError("a derived histogram (or its source) no longer matches its bins")
+    elif name == "iadd_then_grow":
+        # the right operand of an adaptive += is left alone, also when the sum grows afterwards
+        if not h.is_adaptive() or not all(h.shape): raise ValueError("n/a")
+        b = h.copy()
+        left = [float(h.get_bin_left_edges(i)[0]) - 3.25 * float(h.get_bin_widths(i)[0]) for i in range(h.ndim)] if h.ndim > 1 \
+            else float(h.bin_left_edges[0]) - 3.25 * float(h.bin_widths[0])
+        b.fill(left)
+        h += b
+        right = [float(h.get_bin_right_edges(i)[-1]) + 5.25 * float(h.get_bin_widths(i)[-1]) for i in range(h.ndim)] if h.ndim > 1 \
+            else float(h.bin_right_edges[-1]) + 5.25 * float(h.bin_widths[-1])
+        h.fill(right)
+        return _shapes_ok(b) and _shapes_ok(h)
     elif name == "sub_more_unsigned":
         # subtracting more than is there is refused whatever the content dtype - also where the difference would wrap instead of going negative
         from physt.histogram1d import Histogram1D
